@@ -68,7 +68,7 @@ STATEMENTS = {
 TRUSTED = [
     'asyncio\'s implementation of futures, tasks, cancellation and asyncio.wait; one `await asyncio.sleep(0)` = one turn of the ready queue',
     'the instrumentation (logging deque assigned into the _messages slot, logging future factory behind _loop) records the atomic steps faithfully',
-    'the harness-side server receive() (a future per pull, resolved by the schedule) as the meaning of "the server delivers"',
+    'the harness-side server receive() (a future per pull, resolved by the schedule; in the eager variant returned at once while events are at hand) as the meaning of "the server delivers"',
     'unbuffered mode: the harness-side server keeps an event whose pull was cancelled before the receive resumed (as asyncio.Queue.get does); the hand-over and the resumption of the parked '
     'receive are one model step (nothing in the resumed code reads state another task could have changed in between); the server\'s send() failures are represented by one exception per class '
     'that _translate_webserver_error distinguishes',
@@ -102,11 +102,18 @@ RULE_CONFIG = (' Configuration dimension: every run carries an announced ASGI sp
 RULE_UNBUFFERED = (' Unbuffered session (Wu model): the same enumerated {D,R,Y,C,S} schedules x k x {no disconnect, code 1001, code missing} x drain/close with accept first, plus random schedules of 3..30 steps over '
                    '{D,R,Y,C,S,X close(code),F send failing at the server,A accept} with 0..6 text/bytes messages, receive_text/receive_data patterns, disconnect codes incl. missing and 0, an event offered after the '
                    'disconnect, valid and invalid close codes, 9 server send-failure shapes, accept first or not; every executed atomic step (label, observation, closed/ready/unaccepted) and the final server-side counts are compared.')
+RULE_BURST = (' Back-to-back reading: the step B starts ONE application task that performs a pattern of operations (r = receive_text(), s = send through the current entry point) without yielding to the loop on its own - '
+              'a receive that finds a message and a send to a server whose send() does not suspend return without a loop turn, so the pump does not run in between - and the server is either scripted (an event is handed '
+              'over at each D) or EAGER (its receive() returns an event it has without suspending, like a non-empty asyncio.Queue). Directed: for every capacity 0..4, a backlog of capacity + j events (j = 0..3, the last one '
+              'the disconnect or not) that reached the server before the first receive (handed over one per loop turn while nobody receives, so that the pump fills the queue and parks holding one more / all at hand at an '
+              'eager server), then m = 1 .. backlog + 1 consecutive receives (with or without a send after each), every tail of <= 1 step out of {Y, D, R, B}, drain / close; half of the random schedules draw from '
+              '{D,R,Y,C,S,B} with 1..3 PRNG patterns of 2..7 operations, a quarter of them start with a backlog of capacity + 0..2 hand-overs, a quarter of all random runs use the eager server. The read-ahead oracle '
+              'counts the loop as quiescent only when, besides two Y steps in a row, the last turn logged no step of any task.')
 RULE = ('every schedule over {D deliver, R start receive, Y run ready queue, C cancel pending receive, S send} of length <= 4 (quick) / <= 6 (thorough), every schedule over '
         '{D,R,Y} of length 5..6 (quick) / 7..8 (thorough), each followed by a deterministic drain (deliver all, receive all) or by close(); x capacities 0..4 x k = 1..2 (quick) / 1..3 (thorough) '
         'messages x with/without a trailing disconnect; plus, for capacities 1..4, "fill the queue and park the pump" followed by every tail of <= 2 steps and drain/close; plus random schedules of 5..40 steps with k <= 8. The real falcon.asgi.ws.WebSocket (source mode) is driven; '
         'non-trivial = at least one message was delivered and received; distinct = distinct (capacity, k, disconnect, schedule, ending, spec version, entry point, close reasons, send entry points, media handler, who closes, '
-        'history of the App object)' + RULE_CONFIG + RULE_HISTORY + RULE_UNBUFFERED)
+        'history of the App object, burst patterns, server kind)' + RULE_CONFIG + RULE_HISTORY + RULE_BURST + RULE_UNBUFFERED)
 PARTIAL = ('the theorems are about the atomic-segment model; that asyncio runs the real coroutines segment by segment as modelled is established by trace inclusion on every generated '
            'schedule (exhaustive to the stated bounds), not by proof; liveness is stated fairness-free (buffered: no_lost_wakeup + resolved_receive_enabled; unbuffered: deliver_enabled_iff + '
            'parked_receive_completes). Unbuffered mode is proved over the Wu small-step model (one receiver at a time; receive_media and two concurrent receives are not modelled), which is tied to the real '
@@ -134,7 +141,8 @@ def cfg_at(j):
 
 def cfg_random(rnd):
     return {'ver': rnd.choice(VERSIONS), 'entry': rnd.choice(ENTRIES), 'reasons': rnd.random() < 0.5,
-            'sends': ''.join(rnd.choice(SEND_KINDS) for _ in range(rnd.randint(1, 4))), 'tagged': rnd.random() < 0.5, 'finish': rnd.choice(FINISHES)}
+            'sends': ''.join(rnd.choice(SEND_KINDS) for _ in range(rnd.randint(1, 4))), 'tagged': rnd.random() < 0.5, 'finish': rnd.choice(FINISHES),
+            'bursts': [''.join(rnd.choice('rrrs') for _ in range(rnd.randint(2, 7))) for _ in range(rnd.randint(1, 3))], 'eager': rnd.random() < 0.25}
 
 
 def send_points():
@@ -714,14 +722,26 @@ def run(ctx):
         o = {'pending': [], 'delivered': 0, 'maxpulls': 0, 'got': [], 'errors': [], 'sent': [], 'sends': [], 'f13': None, 'bound': None,
              'pull_idle': None, 'closed': False, 'disc_delivered': False, 'turns_since_disc': 0, 'prompt': None, 'active_recv': 0,
              'quiet': 0, 'readahead': None, 'props': None, 'entry_failed': None, 'nsend': 0, 'told': False, 'options': None, 'app': None,
-             'send_kinds': [], 'told_kinds': []}
+             'send_kinds': [], 'told_kinds': [], 'nburst': 0, 'burst_ops': 0, 'by_send': set(), 'idle': False}
         sends = cfg.get('sends', 't'); tagged = cfg.get('tagged', False); finish = cfg.get('finish', 'harness')
+        bursts = cfg.get('bursts') or ['rr']; eager = bool(cfg.get('eager'))
+
+        def hand_over():
+            ev = events[o['delivered']]; o['delivered'] += 1
+            log.append('deliver:%d' % ev['n'])
+            if ev['n'] == DISC:
+                o['disc_delivered'] = True; o['turns_since_disc'] = 0
+            return ev
 
         async def receive():
             f = loop.create_future(); o['pending'].append(f); log.append('pull')
             o['maxpulls'] = max(o['maxpulls'], len(o['pending']))
             if cap == 0 and o['active_recv'] == 0 and o['pull_idle'] is None:
                 o['pull_idle'] = 'unbuffered mode pulled from the server although no receive was in progress'
+            if eager and o['delivered'] < len(events):
+                # a server that has the client's events at hand (an asyncio.Queue that is not empty): its receive() returns without suspending
+                o['pending'].remove(f)
+                return hand_over()
             try:
                 return await f
             except asyncio.CancelledError:
@@ -812,7 +832,9 @@ def run(ctx):
             # read-ahead: with room for more (fewer than the configured number held), a connected client and a quiescent loop (two turns
             # without any other step), the framework must be waiting on the server - otherwise a disconnect that reaches the server now
             # could not be reported to a sender
-            if (o['readahead'] is None and o['quiet'] >= 2 and not o['closed'] and not o['disc_delivered'] and h < cap and unresolved == 0):
+            # (with an eager server or a burst task, pump and application can keep each other busy for several turns: the loop is quiescent only if
+            # nothing was logged during the last turn either - every resumption of a task logs a step)
+            if (o['readahead'] is None and o['quiet'] >= 2 and o['idle'] and not o['closed'] and not o['disc_delivered'] and h < cap and unresolved == 0):
                 o['readahead'] = ('after %d steps (%d quiet loop turns): the framework holds %d event(s) of the %d configured, the client is connected, '
                                   'yet no pull on the server is outstanding' % (len(o['trail']), o['quiet'], h, cap))
 
@@ -820,16 +842,23 @@ def run(ctx):
             nonlocal recv_task
             o['trail'].append(ch)
             o['quiet'] = o['quiet'] + 1 if ch == 'Y' else 0
+            n_log0 = len(log)
             if ch == 'D':
                 live = [f for f in o['pending'] if not f.done()]
                 if live and o['delivered'] < len(events):
-                    f = live[0]; o['pending'].remove(f); ev = events[o['delivered']]; o['delivered'] += 1
-                    log.append('deliver:%d' % ev['n']); f.set_result(ev)
-                    if ev['n'] == DISC:
-                        o['disc_delivered'] = True; o['turns_since_disc'] = 0
+                    f = live[0]; o['pending'].remove(f)
+                    f.set_result(hand_over())
             elif ch == 'R':
                 if (recv_task is None or recv_task.done()) and not o['closed']:
                     recv_task = asyncio.ensure_future(do_recv())
+            elif ch == 'B':
+                # ONE application task that performs several operations back to back - consecutive receives (r), sends in between (s) - without ever
+                # yielding to the event loop on its own: an `await ws.receive_*()` that finds a message, and a send to a server whose send() does not
+                # suspend, return without a loop turn, so the pump does not get to run between them
+                if (recv_task is None or recv_task.done()) and not o['closed']:
+                    pat = bursts[o['nburst'] % len(bursts)]; o['nburst'] += 1
+                    o['burst_ops'] += len(pat)
+                    recv_task = asyncio.ensure_future(do_burst(pat))
             elif ch == 'Y':
                 await asyncio.sleep(0)
                 if o['disc_delivered']:
@@ -838,6 +867,19 @@ def run(ctx):
                 if recv_task is not None and not recv_task.done():
                     recv_task.cancel()
             elif ch == 'S':
+                await do_send_once()
+            o['idle'] = ch == 'Y' and len(log) == n_log0
+            observe()
+
+        async def do_burst(pat):
+            for op in pat:
+                if op == 'r':
+                    await do_recv()
+                else:
+                    await do_send_once()
+
+        async def do_send_once():
+            if True:
                 # a sender that was told about the client's disconnect (by a send or by a receive) may try again, through any entry point: it must be told again
                 if not o['closed'] or o['told']:
                     kind = sends[o['nsend'] % len(sends)]; n = o['nsend']; o['nsend'] += 1
@@ -851,6 +893,7 @@ def run(ctx):
                         r = type(e).__name__; o['errors'].append('%s raised %s: %s' % (SEND_NAMES[kind], r, e))
                     o['sends'].append(r); o['send_kinds'].append(kind)
                     passed = o['sent'][before:]
+                    o['by_send'].update(id(m) for m in passed)
                     if cap > 0:
                         must_fail = (o['disc_delivered'] and o['turns_since_disc'] >= 1) or o['told']
                         must_pass = not o['disc_delivered']
@@ -872,7 +915,6 @@ def run(ctx):
                         w = wrong_event(kind, n, tag, tagged, passed)
                         if w:
                             o['options'] = '%s (send #%d): %s' % (SEND_NAMES[kind], n, w)
-            observe()
         o['trail'] = []
         for ch in sched:
             await step(ch)
@@ -902,7 +944,10 @@ def run(ctx):
                 code = 1000
                 o['closer'] = 'the application (ws.close())'
             o['closed'] = True
-            passed = o['sent'][before:]
+            # (what a burst task passed to the server through a send entry point while close() was in progress was judged there)
+            passed = [m for m in o['sent'][before:] if id(m) not in o['by_send']]
+            if o['disc_delivered']:         # (an eager server may have handed the disconnect over while the closing sequence was running: then nothing or the close event)
+                connected = False
             want = close_event(code, cfg['ver'], reasons)
             if lost and passed:
                 o['prompt'] = o['prompt'] or ('close() by %s passed %r to the server although the client\'s disconnect had been handed over %d loop turn(s) earlier'
@@ -970,7 +1015,9 @@ def run(ctx):
                 'default_close_reasons': 'stock' if cfg['reasons'] else 'empty', 'messages': k, 'disconnect': disc, 'schedule': sched, 'ending': ending,
                 'sends': cfg.get('sends', 't'), 'send_results': ' '.join('%s:%s' % kr for kr in zip(o['send_kinds'], o['sends'])),
                 'text_media_handler': 'tagged' if cfg.get('tagged') else 'stock JSON',
-                'legend': 'D deliver next event into the outstanding pull, R start receive_text(), Y one loop turn, C cancel the pending receive, S send (entry point by `sends`), then drain=(YYDYYRYY)* or close(); ' + SEND_LEGEND,
+                'legend': 'D deliver next event into the outstanding pull, R start receive_text(), B start ONE task that performs the operations of the next pattern of `bursts` back to back without yielding (r = receive_text(), s = send), '
+                          'Y one loop turn, C cancel the pending receive / burst, S send (entry point by `sends`), then drain=(YYDYYRYY)* or close(); server eager = its receive() returns an event it has without suspending (no D needed); ' + SEND_LEGEND,
+                'bursts': ' '.join(cfg.get('bursts') or []) if 'B' in sched else '-', 'server': 'eager' if cfg.get('eager') else 'hands an event over at each D',
                 'received': o['got'], 'event_log': log[:120]}
         if o.get('closer'):
             case['closed_by'] = o['closer']
@@ -1050,7 +1097,7 @@ def run(ctx):
         head = 'cfg %s %d' % (cfg['ver'], cap) if o['app'] is None else 'hist %s %s' % (o['app']['ops'], cfg['ver'])
         if cap > 0 or o['app'] is not None:
             meta = {'capacity': cap, 'spec_version': cfg['ver'], 'entry': cfg['entry'], 'default_close_reasons': case['default_close_reasons'],
-                    'messages': k, 'disconnect': disc, 'schedule': sched, 'ending': ending, 'sends': case['sends']}
+                    'messages': k, 'disconnect': disc, 'schedule': sched, 'ending': ending, 'sends': case['sends'], 'bursts': case['bursts'], 'server': case['server']}
             if o['app'] is not None:
                 meta['app_object_history'] = case['app_object_history']
                 meta['protocol'] = 'hist: q<n> = ws_options.max_receive_queue = n, c<ver> = an earlier connection of the same App object'
@@ -1062,7 +1109,8 @@ def run(ctx):
                         'hdr=%d accepted q=%d held=%d ret=%d dlv=%d disc=%d pump=%d' % (o['hdr'], final['q'], final['held'], final['ret'], final['dlv'], final['disc'], final['pump']))
             else:
                 sess.op(head + ' log ' + ' '.join(log), 'hdr=%d %s' % (o['hdr'], 'a pump task was started' if o['pump_started'] else 'direct'))
-        ctx.seen((cap, k, disc, sched, ending, cfg['ver'], cfg['entry'], cfg['reasons'], cfg.get('sends', 't'), cfg.get('tagged', False), o.get('closer'), hist),
+        ctx.seen((cap, k, disc, sched, ending, cfg['ver'], cfg['entry'], cfg['reasons'], cfg.get('sends', 't'), cfg.get('tagged', False), o.get('closer'), hist,
+                  tuple(cfg.get('bursts') or ()) if 'B' in sched else (), bool(cfg.get('eager'))),
                  bool([g for g in got if isinstance(g, int) and g != DISC]))
         for kd in o['send_kinds']: ctx.count('send_entry_' + kd)
         for kd in o['told_kinds']: ctx.count('send_entry_%s_told_disconnect' % kd)
@@ -1076,6 +1124,11 @@ def run(ctx):
         if disc: ctx.count('with_disconnect')
         if 'mkfutPump' in log: ctx.count('pump_parked_on_full_queue')
         if 'recvSynthetic' in log: ctx.count('synthetic_disconnect')
+        if o['nburst']:
+            ctx.count('with_burst_of_consecutive_operations'); ctx.count('burst_operations', o['burst_ops'])
+            # the pump was parked holding an event and the burst emptied the queue before the pump ran again
+            if 'mkfutPump' in log: ctx.count('burst_after_the_pump_was_parked_on_a_full_queue')
+        if cfg.get('eager'): ctx.count('server_eager')
 
     async def main():
         rnd = ctx.rng
@@ -1129,6 +1182,33 @@ def run(ctx):
                                 cfg = cfg_at(j)
                                 judge(cap, k, disc, sched, ending, cfg, await run_one(cap, k, disc, sched, ending, cfg))
                                 ctx.count('directed_full_queue_runs')
+        # directed: A BACKLOG READ BACK TO BACK. capacity + j events (j = 0..3; the last one the client's disconnect or not) reach the server before the application's
+        # first receive - handed over one per loop turn while nobody receives (the pump fills the queue and parks holding one more; what does not fit stays at the
+        # server), or all at hand at an eager server -, then ONE application task performs m consecutive receives (m = 1 .. backlog + 1, optionally a send after
+        # each receive) without yielding, then every tail of <= 1 step, then drain / close.  The burst pops the message that un-parks the pump and goes on to
+        # empty the queue (and to wait) before the pump has run again.
+        b = 0
+        for cap in (0, 1, 2, 3, 4):
+            for extra in (0, 1, 2, 3):
+                nev = cap + extra
+                if nev == 0:
+                    continue
+                for disc in (False, True):
+                    k = nev - 1 if disc else nev
+                    for eager in (False, True):
+                        for m in range(1, nev + 2):
+                            for with_sends in (False, True):
+                                b += 1
+                                if b % nsh != i or (with_sends and (m + extra) % 2):
+                                    continue
+                                pat = ('rs' * m) if with_sends else 'r' * m
+                                for tail in ('', 'Y', 'D', 'R', 'B'):
+                                    for ending in (('drain', 'close') if tail in ('', 'Y') else ('drain',)):
+                                        j += 1
+                                        cfg = dict(cfg_at(j), bursts=[pat, 'rr'], eager=eager)
+                                        sched = ('Y' if eager else 'Y' + 'DY' * nev) + 'B' + tail
+                                        judge(cap, k, disc, sched, ending, cfg, await run_one(cap, k, disc, sched, ending, cfg))
+                                        ctx.count('directed_backlog_read_back_to_back_runs')
         # directed: HISTORIES OF CONNECTIONS on one falcon.asgi.App object. Every pair and every triple of capacities 0..4 in turn on the same App (options changed
         # in between, also between construction and the first connection); each connection runs a scenario in which its own capacity matters:
         #   over   - capacity + 3 messages and a disconnect are handed over one per loop turn while nobody receives (bound, read-ahead), then drained (FIFO);
@@ -1180,7 +1260,10 @@ def run(ctx):
                                 ctx.count('directed_sender_only_runs')
         for _ in range(ctx.n(4000, 60000)):
             cap = rnd.choice([0, 1, 1, 2, 3, 4]); k = rnd.randint(1, 8); disc = rnd.random() < 0.5
-            sched = ''.join(rnd.choice('DDRRYYYCS') for _ in range(rnd.randint(5, 40)))
+            sched = ''.join(rnd.choice('DDRRYYYCSB' if _ % 2 else 'DDRRYYYCS') for _ in range(rnd.randint(5, 40)))
+            if _ % 4 == 3:
+                # a backlog first: capacity + j events handed over while nobody receives
+                sched = 'Y' + 'DY' * min(k + int(disc), cap + rnd.randint(0, 2)) + sched
             ending = 'close' if rnd.random() < 0.25 else 'drain'
             cfg = cfg_random(rnd)
             judge(cap, k, disc, sched, ending, cfg, await run_one(cap, k, disc, sched, ending, cfg))
